@@ -2,14 +2,16 @@
    ExtrOcamlBasic only maps bool, option, list, prod, unit, sumbool to OCaml's). *)
 Require Extraction.
 Require Import ExtrOcamlBasic.
+Require Import ExtrOcamlString.  (* stdlib directives: ascii -> char, string -> char list; used only for instruction text *)
 From Coq Require Import NArith Bool.
 From Chibicc Require Import Proofs.LayoutProofs.
 From Chibicc Require Import Model.Hashmap Model.HashmapC Model.Unicode Gen.UnicodeTables Spec.Utf
-     Model.IntLit Spec.IntLitSpec Model.Layout Model.Declspec Gen.DeclspecTable Spec.DeclspecSpec Spec.C11Int Model.ConstFold.
+     Model.IntLit Spec.IntLitSpec Model.Layout Model.Declspec Gen.DeclspecTable Spec.DeclspecSpec Spec.C11Int Model.ConstFold Model.X86Int Model.CodegenInt Gen.CastTable.
 Definition is_ident1_m (c : N) : bool := Unicode.in_range ident1_ranges c.
 Definition is_ident2_m (c : N) : bool := is_ident1_m c || Unicode.in_range ident2_ranges c.
 Extraction "modelext.ml" c_empty c_step fnv capacity
   encode_utf8 decode_utf8 utf16_units rfc3629 utf16_spec is_ident1_m is_ident2_m spec_ident_start spec_ident_cont
   lit_type c11_literal_type
   C11Int.eval type_of m_eval m_type uac m_common promote conv
+  gen_cast cast_table gen_binop gen_unop insn_text exec
   struct_layout union_layout struct_members struct_step no_bad declspec kw_op ds_table c11_type_specifiers.
